@@ -726,7 +726,14 @@ impl World {
                 "listdatastore" | "listsendpays" | "waitsendpay" => {
                     let idx = s.node.reads_seen;
                     s.node.reads_seen += 1;
-                    let fault = if self.in_probe { None } else { self.scn.read_faults.iter().find(|(n, _)| *n as u32 == idx).map(|f| f.1) };
+                    let mut fault = if self.in_probe { None } else { self.scn.read_faults.iter().find(|(n, _)| *n as u32 == idx).map(|f| f.1) };
+                    if r.method == "listdatastore" {
+                        let di = s.node.ds_reads_seen;
+                        s.node.ds_reads_seen += 1;
+                        if fault.is_none() && !self.in_probe {
+                            fault = self.scn.ds_read_faults.iter().find(|(n, _)| *n as u32 == di).map(|f| f.1);
+                        }
+                    }
                     match fault {
                         Some(code) => (rpc_error(code, "injected: read failed"), false, true),
                         None => {
